@@ -6,6 +6,7 @@
 
 mod bits_engine;
 mod comps;
+mod query_engine;
 mod sched;
 mod sched_borrow;
 mod sched_reserve;
@@ -64,6 +65,7 @@ fn main() {
                 Some("malformed") => world_engine::Profile::Malformed,
                 Some("reserve") => world_engine::Profile::Reserve,
                 Some("batch") => world_engine::Profile::Batch,
+                Some("query") => world_engine::Profile::Query,
                 _ => world_engine::Profile::Mixed,
             };
             let out = arg(&args, "--out").expect("--out DIR");
